@@ -149,8 +149,12 @@ def targets : Stmt → List Nat
 
 /-- The FIXED refusal rule of `PSyDataTrans.validate` for the statements of a region
 (`inLoop`: we are inside a loop that is itself inside the region; `T`: labels used by the
-GOTOs of the routine): no RETURN (`excluded_node_types`), no GOTO, no statement that is the
-target of a GOTO, no EXIT/CYCLE that does not belong to a loop inside the region. -/
+GOTOs of the routine): no RETURN (`excluded_node_types` for PSyIR Return nodes; `_leaves_region`
+for RETURN statements inside CodeBlocks, fixes/C28-return-in-codeblock.patch), no GOTO, no
+statement that is the target of a GOTO, no EXIT/CYCLE that does not belong to a loop inside the
+region.  The harness opens the fparser2 tree of every CodeBlock (ASSOCIATE/BLOCK bodies are
+statements of the enclosing list, IF/SELECT CASE are `ite`, DO constructs are `loop`), so this
+function sees the same structure as `_leaves_region`. -/
 def safe (T : List Nat) : Bool → Stmt → Bool
   | _, .skip => true
   | _, .basic _ => true
